@@ -1,0 +1,84 @@
+//go:build verif
+
+package container
+
+// Contracts for queue.go and stack.go. Comment-only: read by the verifier in /verif/govc, which
+// generates verification conditions from the real function bodies. No executable code.
+//
+// ---- Queue: exact FIFO over a ghost history -------------------------------------------------------
+//
+//@ ghost field Queue.hist seq[T]     // every element ever enqueued, in order
+//@ ghost field Queue.ndeq int        // how many of them have been dequeued
+//
+//@ pure func (q *Queue[T]) size() int {
+//@     return (len(q.base) == 0 || q.first == -1) ? 0 :
+//@            (q.next == q.first ? cap(q.base) : (q.next - q.first + cap(q.base)) % cap(q.base)) }
+//@ pure func (q *Queue[T]) at(k int) T { return q.base[(q.first + k) % cap(q.base)] }
+//@ pred (q *Queue[T]) wf() {
+//@     q != nil && len(q.base) == cap(q.base) &&
+//@     (len(q.base) == 0 ==> q.next == 0) &&
+//@     (len(q.base) != 0 ==> cap(q.base) >= 2 &&
+//@         ((q.first == -1 && q.next == 0) ||
+//@          (0 <= q.first && q.first < cap(q.base) && 0 <= q.next && q.next < cap(q.base)))) &&
+//@     0 <= q.ndeq && q.size() == len(q.hist) - q.ndeq &&
+//@     (forall k int :: {q.at(k)} 0 <= k && k < q.size() ==> q.at(k) == q.hist[q.ndeq + k]) }
+//
+//@ func (q *Queue[T]) Enqueue(i T)
+//@   arith    checked
+//@   requires q.wf()
+//@   modifies q.base, q.first, q.next, q.hist, elems(q.base)
+//@   ensures  "wf":   q.wf()
+//@   ensures  "fifo": q.hist == snoc(old(q.hist), i) && q.ndeq == old(q.ndeq)
+//@   ghost exit { q.hist = snoc(old(q.hist), i) }
+//
+//@ func (q *Queue[T]) Dequeue() (res T)
+//@   arith    checked
+//@   requires q.wf()
+//@   requires "nonempty": q.size() > 0
+//@   modifies q.first, q.next, q.ndeq
+//@   ensures  "wf":   q.wf()
+//@   ensures  "fifo": res == old(q.hist[q.ndeq]) && q.ndeq == old(q.ndeq) + 1 && q.hist == old(q.hist)
+//@   ghost exit { q.ndeq = old(q.ndeq) + 1 }
+//
+//@ func (q *Queue[T]) Peek() (res T)
+//@   arith    checked
+//@   requires q.wf()
+//@   requires "nonempty": q.size() > 0
+//@   ensures  "first": res == q.hist[q.ndeq]
+//
+//@ func (q *Queue[T]) Size() (res int)
+//@   arith    checked
+//@   requires q.wf()
+//@   ensures  "size": res == len(q.hist) - q.ndeq && res == q.size() && res >= 0
+//
+// ---- Stack: exact LIFO over the slice view --------------------------------------------------------
+//
+//@ func (s *Stack[T]) Push(i T)
+//@   requires s != nil
+//@   modifies *s, elems(*s)
+//@   ensures  "lifo": seq(*s) == snoc(old(seq(*s)), i)
+//
+//@ func (s *Stack[T]) PushAll(i []T)
+//@   requires s != nil
+//@   modifies *s, elems(*s)
+//@   ensures  "lifo": seq(*s) == old(seq(*s)) ++ old(seq(i))
+//
+//@ func (s *Stack[T]) Pop() (res T)
+//@   requires s != nil
+//@   requires "nonempty": len(*s) > 0
+//@   modifies *s
+//@   ensures  "lifo": res == old(seq(*s))[len(old(seq(*s))) - 1] && seq(*s) == old(seq(*s))[:len(old(seq(*s))) - 1]
+//
+//@ func (s *Stack[T]) Peek() (res T)
+//@   requires s != nil
+//@   requires "nonempty": len(*s) > 0
+//@   ensures  "top": res == seq(*s)[len(*s) - 1]
+//
+//@ func (s *Stack[T]) Size() (res int)
+//@   requires s != nil
+//@   ensures  "size": res == len(seq(*s)) && res == len(*s)
+//
+//@ func (s *Stack[T]) Clear()
+//@   requires s != nil
+//@   modifies *s
+//@   ensures  "empty": len(*s) == 0 && len(seq(*s)) == 0
